@@ -46,6 +46,9 @@ What the extraction changes (everything else is byte-for-byte the text of /repo)
       they have no effect on the function's result or state; each one is listed in the evidence.
   (5) where a unit says so (#subst), calls of a std function whose signature Verus cannot name are redirected
       to a wrapper of the same type declared in the unit (trusted; listed in the evidence with the count).
+  (6) Rust-2024 let-chains (Verus has none): `if A && let P = E && B { S }` without an else branch is nested as
+      `if A { if let P = E { if B { S } } }` (_desugar_let_chains; counted as let_chains_nested); chains with an
+      else branch or in a `while` are left alone (Verus rejects them: undecided).
 A missing or ambiguous anchor raises LostAnchor (=> exit 2, never an alarm).
 """
 import hashlib, os, re
